@@ -251,7 +251,11 @@ func (r *readableSet[T]) Any() (element T, exists bool) {
 
 // Is returns true if the given element is the only element in the set.
 func (r *readableSet[T]) Is(element T) bool {
-	return r.Size() == 1 && r.Has(element)
+	// size and membership are looked at in one step: between two separate steps the set could change from {a} over {a, b}
+	// back to {a} and Is(b) would report a state the set was never in
+	onlyElement, _, exists := r.OrderedMap.Only()
+
+	return exists && onlyElement == element
 }
 
 // Iterator returns an iterator for the set.
